@@ -69,6 +69,34 @@ impl Ex {
             Ex::In(o, l, r) => format!("({}{}{})", l.show(), IN_NAMES[*o as usize], r.show()),
         }
     }
+    /// parseable Quil source text for this tree (fully parenthesised)
+    pub fn source(&self) -> String {
+        match self {
+            Ex::Num(r, i) => {
+                if *i == 0.0 {
+                    if *r < 0.0 {
+                        format!("(-{})", -r)
+                    } else {
+                        format!("{r}")
+                    }
+                } else if *r == 0.0 {
+                    if *i < 0.0 {
+                        format!("(-{}i)", -i)
+                    } else {
+                        format!("{i}i")
+                    }
+                } else {
+                    format!("({r}{}{}i)", if *i < 0.0 { "-" } else { "+" }, i.abs())
+                }
+            }
+            Ex::Pi => "pi".into(),
+            Ex::Var(v) => format!("%{v}"),
+            Ex::Addr(n, i) => format!("{n}[{i}]"),
+            Ex::Fn(f, e) => format!("{}({})", FUN_NAMES[*f as usize], e.source()),
+            Ex::Pre(p, e) => format!("({}{})", if *p == 0 { "-" } else { "+" }, e.source()),
+            Ex::In(o, l, r) => format!("({}{}{})", l.source(), IN_NAMES[*o as usize], r.source()),
+        }
+    }
     pub fn size(&self) -> usize {
         match self {
             Ex::Fn(_, e) | Ex::Pre(_, e) => 1 + e.size(),
